@@ -18,6 +18,12 @@ TRACE = 'SPECIFICATION TraceSpec\nCHECK_DEADLOCK FALSE\n'
 KINDS = ['exe', 'shlib', 'slib', 'header', 'hdrdir', 'man', 'data', 'pc']
 
 
+def mkq(value):
+    """a variable given on the make command line is expanded again when it is
+    used: a literal '$' has to be written '$$' (GNU Make's rule, not bfg9000's)"""
+    return value.replace('$', '$$')
+
+
 def absdir(comps):
     return '/' + '/'.join(comps)
 
@@ -176,7 +182,7 @@ def run_case(case):
         stage = os.path.join(root, *case['destdir'])
         srcsnap = tree_snapshot(src)
         sroot = stage + rbase
-        rc, out = run(['make', 'install', 'DESTDIR=' + stage], cwd=bld,
+        rc, out = run(['make', 'install', 'DESTDIR=' + mkq(stage)], cwd=bld,
                       env=env)
         tree = listing(sroot) if os.path.exists(sroot) else []
         everything = listing(stage) if os.path.exists(stage) else []
@@ -222,7 +228,7 @@ def run_case(case):
                     os.rename(bld + '.away', bld)
                 events.append({'ev': 'Run', 'exit': r.returncode,
                                'note': r.stderr[-300:]})
-        rc, out = run(['make', 'uninstall', 'DESTDIR=' + stage], cwd=bld,
+        rc, out = run(['make', 'uninstall', 'DESTDIR=' + mkq(stage)], cwd=bld,
                       env=env)
         tree2 = listing(stage) if os.path.exists(stage) else []
         tree2 = [x[len(bcomps):] if x[:len(bcomps)] == bcomps else x
